@@ -77,11 +77,11 @@ class Run(object):
                 r.sock.fail_send = True
             if t[0] == 'peer':
                 blob = b''.join(t[1])
-                if kind == 'eof' and i == ti:
+                if kind in ('eof', 'reset') and i == ti:
                     if r.sock is not None and not r.sock.closed:
                         if off:
                             r.feed(blob[:off])
-                        r.feed('EOF')
+                        r.feed('EOF' if kind == 'eof' else 'ERR')      # orderly close / connection reset (recv raises)
                     r.settle()
                     break
                 if r.sock is None or r.sock.closed:
@@ -90,9 +90,9 @@ class Run(object):
                     r.feed(seg)
                     r.settle()
             elif t[0] == 'user':
-                if kind == 'eof' and i == ti:
+                if kind in ('eof', 'reset') and i == ti:
                     if r.sock is not None and not r.sock.closed:
-                        r.feed('EOF')
+                        r.feed('EOF' if kind == 'eof' else 'ERR')
                     r.settle()
                     break
                 if r.p.state in (1, 13) and i > 0:
@@ -172,8 +172,12 @@ def faults_for(conv, tier):
                               [len(blob) - k for k in range(1, 8) if len(blob) - k > 0]))
             for off in offs:
                 out.append(('eof', i, off))
+            for off in sorted(set([0, 3, 6, len(blob) // 2, len(blob) - 1])):
+                if 0 <= off < len(blob):
+                    out.append(('reset', i, off))
         elif t[0] == 'user':
             out.append(('eof', i, 0))
+            out.append(('reset', i, 0))
             if t[1] == 'store':
                 for k in range(1, 5):
                     out.append(('eof-mid-send', i, k))
@@ -192,7 +196,8 @@ def replay(case):
 def run(chk):
     chk.rule = ('scenario corpus (echo, multi-fragment store, release from either side, release collision, abort from either '
                 'side, reject, garbage, pipelining; both roles) run on the real provider loop (S2) with one fault each: the '
-                'peer disconnecting after every byte prefix of every peer turn and before every local step, the peer going '
+                'peer disconnecting after every byte prefix of every peer turn and before every local step (orderly close; and a '
+                'connection reset, where recv raises, at five offsets of every turn), the peer going '
                 'silent for ever after every turn (clock advanced past ARTIM), a transport write failing during every turn; '
                 'oracle: no pass blocks, the loop does not die, final state idle, socket closed and dropped, ARTIM stopped, '
                 'the user told when an association had been indicated; non-trivial = faults that strike mid-conversation')
